@@ -129,7 +129,8 @@ def reparseViolation (o : ReparseObs) : Option String :=
 def panicViolation (implPanicked : Bool) : Option String :=
   if implPanicked then some "panic" else none
 
-/-! ## equality laws on a pair (a, b) -/
+/-! ## equality laws on a pair (a, b): "Equal and DeepEqual are reflexive and symmetric, and DeepEqual
+implies Equal" -/
 
 structure EqObs where
   aEa : Bool
@@ -148,6 +149,60 @@ def eqViolation (o : EqObs) : Option String :=
   else if o.aEb != o.bEa then some "Equal is not symmetric"
   else if o.aDb != o.bDa then some "DeepEqual is not symmetric"
   else if (o.aDb && !o.aEb) || (o.bDa && !o.bEa) then some "DeepEqual does not imply Equal"
+  else none
+
+/-! ## equality laws on a triple (a, b, c): "equality is lawful" includes transitivity -/
+
+/-- `Equal` (`e..`) and `DeepEqual` (`d..`) on the six ordered pairs of three candidates:
+`eab` = `a.Equal(b)`, … -/
+structure Eq3Obs where
+  eab : Bool
+  ebc : Bool
+  eac : Bool
+  eba : Bool
+  ecb : Bool
+  eca : Bool
+  dab : Bool
+  dbc : Bool
+  dac : Bool
+  dba : Bool
+  dcb : Bool
+  dca : Bool
+  deriving Repr, DecidableEq
+
+/-- some chain x~y, y~z without x~z, over the six orders of the three candidates -/
+def chainBroken (ab bc ac ba cb ca : Bool) : Bool :=
+  (ab && bc && !ac) || (ac && cb && !ab) || (ba && ac && !bc) ||
+  (bc && ca && !ba) || (ca && ab && !cb) || (cb && ba && !ca)
+
+def eq3Violation (o : Eq3Obs) : Option String :=
+  if o.eab != o.eba || o.ebc != o.ecb || o.eac != o.eca then some "Equal is not symmetric"
+  else if o.dab != o.dba || o.dbc != o.dcb || o.dac != o.dca then some "DeepEqual is not symmetric"
+  else if (o.dab && !o.eab) || (o.dbc && !o.ebc) || (o.dac && !o.eac) then some "DeepEqual does not imply Equal"
+  else if chainBroken o.eab o.ebc o.eac o.eba o.ecb o.eca then some "Equal is not transitive"
+  else if chainBroken o.dab o.dbc o.dac o.dba o.dcb o.dca then some "DeepEqual is not transitive"
+  else none
+
+/-! ## the assumption about `netip` that `C16_equal_iff` makes (`IceModel.CandText.EnvLaw`), on what
+the REAL functions returned for one address string -/
+
+/-- `cls`: 0 = `netip.ParseAddr` error, 4 = `Unmap().Is4()`, 6 = otherwise; `canon`: the key of
+`canonicalAddr(ip)` (`none` = parse error; 4 or 16 address bytes, then `%zone` if a zone was kept);
+`viaResolved`: the keys of the IP that `addrEqual` compares for a candidate with this address
+(`parseAddr` of the `*net.UDPAddr{IP: ip.AsSlice(), Zone: ip.Zone()}` the srflx/relay constructors store,
+and of `createAddr(tcp, ip, port)` as the host/prflx constructors call it). -/
+structure AddrObs where
+  cls : Nat
+  canon : Option Str
+  viaResolved : List (Option Str)
+  deriving Repr, DecidableEq
+
+def envLawViolation (o : AddrObs) : Option String :=
+  let want := match o.canon with
+    | none => 0
+    | some k => if k.length = 4 then 4 else 6
+  if o.cls ≠ want then some "assumption: the address class is not the class of the canonical address"
+  else if o.viaResolved.any (· ≠ o.canon) then some "assumption: addrEqual's IP of a resolved address is not canonicalAddr(ParseAddr(address))"
   else none
 
 /-! ## attributes -/
